@@ -278,6 +278,12 @@ where
         self.topic
     }
 
+    /// Gossip handle this publisher sends to.
+    #[cfg(p2panda_p2panda_verif)]
+    pub fn verif_gossip_handle(&self) -> &GossipHandle {
+        &self.inner
+    }
+
     /// Publish a message into an ephemeral topic stream.
     ///
     /// Only currently reachable and subscribed peers will receive published messages.
@@ -301,6 +307,9 @@ where
             let wrapped = WrappedMessage::new(message, timestamp, self.forge.signing_key())?;
             wrapped.to_bytes()?
         };
+
+        #[cfg(p2panda_p2panda_verif)]
+        crate::streams::verif::tap_published(&bytes);
 
         self.inner
             .publish(bytes)
